@@ -533,6 +533,7 @@ class MediaModel:
       ('malformed',)        every call raises one and the same MediaMalformedError instance,
                             default or not
       ('unsupported',)      no handler: every call raises a 415 error, nothing is ever read
+      ('consistent',)       outcome left open (odd framing): one value object or one error instance, ever after
       ('error',)            the attempt failed with any other exception (I/O error while reading, custom
                             handler error): every call raises one and the same exception instance
     Calls after the first never touch the body stream.
@@ -588,6 +589,25 @@ class MediaModel:
                             'call #%d returned %r although the only parse attempt failed' % (self.n, payload)))
             else:
                 self._same_error(payload, bad)
+        elif o == 'consistent':
+            # nothing is assumed about WHAT the single attempt yields (odd framing, odd headers): only the
+            # "at most once" clause - one value object or one error instance, ever after
+            if kind == 'exc':
+                if self.obj is not None:
+                    bad.append(('value-then-error', 'call #%d raised %r after an earlier call returned a value'
+                                % (self.n, payload)))
+                else:
+                    self._same_error(payload, bad)
+            elif (op == 'default' and payload is default and self.obj is None and
+                  (self.err is None or type(self.err).__name__ == 'MediaNotFoundError')):
+                pass        # the caller's own default for an empty body (never cached)
+            elif self.err is not None:
+                bad.append(('error-then-value', 'call #%d returned %r after an earlier call raised %r'
+                            % (self.n, payload, self.err)))
+            elif self.obj is None:
+                self.obj = (payload,)
+            elif self.obj[0] is not payload:
+                bad.append(('not-same-object', 'call #%d returned a different object than the first call' % self.n))
         elif o == 'unsupported':
             if touched:
                 bad.append(('stream-touched-without-handler',
